@@ -83,9 +83,16 @@ def run_case(args):
         w.unit = lambda i: bytes([data[i]]) if i < len(data) else b'?'
         hang = 'PeerExit' if tr == 'pty' else 'PeerClose'
         t0 = w.clock.now
-        w.timed = [(t0 + 0.5, 'PeerWrite(%d)' % len(raw))] if raw else []
-        if ending == 'eof':
-            w.timed.append((t0 + 1.0, hang))
+        if opts.get('early'):
+            # the peer has written everything and gone before the first call (a command that has already finished)
+            if raw:
+                w.peer('PeerWrite', [len(raw)])
+            if ending == 'eof':
+                w.peer(hang, [])
+        else:
+            w.timed = [(t0 + 0.5, 'PeerWrite(%d)' % len(raw))] if raw else []
+            if ending == 'eof':
+                w.timed.append((t0 + 1.0, hang))
         child.timeout = 2.0
         w.active = True
         exact = entry == 'expect_exact'
@@ -167,13 +174,15 @@ def corpus(ctx, pool):
                     for stream, maxread in (('aab', 1), ('aab', 2), ('aabab', 2), ('aabab', 3), ('aababab', 3), ('aababab', 5), ('L:%d' % LONG, None)):
                         if stream.startswith('L:') and (entry == 'expect_list' or (pl is not None and pl is not rlists[1] and pl is not rlists[0])):
                             continue
-                        if ctx.quick() and rng.random() > (0.6 if stream.startswith('L:') else 0.25):
-                            continue
-                        opts = {'maxread': maxread, 'reps': 3}
-                        if tr in HAS_POLL:
-                            opts['use_poll'] = bool(tid % 2)
-                        jobs.append((ctx.work, tid, tr, uni, 'eof', entry, pl or [], stream, opts))
-                        tid += 1
+                        # the output arrives and the stream ends while the first call waits / before the first call
+                        for early in (False, True):
+                            if ctx.quick() and rng.random() > (0.4 if stream.startswith('L:') else 0.15):
+                                continue
+                            opts = {'maxread': maxread, 'reps': 3, 'early': early}
+                            if tr in HAS_POLL:
+                                opts['use_poll'] = bool(tid % 2)
+                            jobs.append((ctx.work, tid, tr, uni, 'eof', entry, pl or [], stream, opts))
+                            tid += 1
     outs = pool.map(run_case, jobs, chunksize=4)
     corpus.counts = (nbase, len(jobs) - nbase)
     return outs
